@@ -184,7 +184,11 @@ def run_sequential(spec):
     for start in (MAX32 - 2, MAX32 - 1, MAX32):
         g = SequenceGenerator()
         g._sequence = start
-        vals = [g.next_sequence() for _ in range(4)]
+        try:
+            vals = [g.next_sequence() for _ in range(4)]
+        except Exception as e:
+            wit.append({"key": f"ids.sequence.raises.{type(e).__name__}", "detail": {"start": hex(start), "exc": repr(e)[:120]}})
+            continue
         if judge(vals, "sequence", start):
             wit.append({"key": "ids.sequence.wrap", "detail": {"start": hex(start), "vals": [hex(v) for v in vals]}})
         evals += 1
@@ -192,7 +196,11 @@ def run_sequential(spec):
     for start in (MAX64 - 2, MAX64 - 1, MAX64):
         g = SessionGenerator("n.example")
         g._sequence = start
-        ids = [g.next_id() for _ in range(4)]
+        try:
+            ids = [g.next_id() for _ in range(4)]
+        except Exception as e:
+            wit.append({"key": f"ids.session.raises.{type(e).__name__}", "detail": {"start": hex(start), "exc": repr(e)[:120]}})
+            continue
         vals = [int(x.split(";")[2] + x.split(";")[3], 16) for x in ids]
         if judge(vals, "session", start):
             wit.append({"key": "ids.session.wrap", "detail": {"start": hex(start), "ids": ids}})
